@@ -102,6 +102,7 @@ class WorkerPool:
         self._workers = []
         self._worker_comms = WorkerComms(self.ctx, self.pool_params.n_jobs, self.pool_params.order_tasks)
         self._map_running = False
+        self._idle_worker_death = None
 
         # Threads needed for gathering results, restarts, and checking for unexpective deaths and timeouts
         self._results_handler_thread = None
@@ -316,14 +317,26 @@ class WorkerPool:
                     self._worker_comms.signal_worker_dead(worker_id)
                     
                     # Obtain task it was working on and set it to failed
-                    job_id = self._worker_comms.get_worker_working_on_job(worker_id)
-                    job_type = self._cache[job_id].type
                     err = RuntimeError(
                         f"Worker-{worker_id} died unexpectedly. This usually means the OS/kernel killed the process "
                         "due to running out of memory"
                     )
-                    self._cache[job_id]._set(success=False, result=err)
-                    
+                    job_id = self._worker_comms.get_worker_working_on_job(worker_id)
+                    job = self._cache.get(job_id)
+                    if job is None:
+                        # The worker was idle: the job it last worked on is gone. When a map call is running that call
+                        # fails. Otherwise we replace the worker, and the next map call on this pool will raise
+                        running_maps = [j for j in self._cache.copy().values() if j.type == JobType.MAP]
+                        if running_maps:
+                            job, job_id = running_maps[0], running_maps[0].job_id
+                        else:
+                            self._idle_worker_death = err
+                            self._worker_comms.reinit_comms_for_worker(worker_id)
+                            self._start_worker(worker_id)
+                            continue
+                    job_type = job.type
+                    job._set(success=False, result=err)
+
                     if job_type == JobType.APPLY:
                         # When a worker of an apply task dies unexpectedly we restart the worker and continue
                         self._worker_comms.reinit_comms_for_worker(worker_id)
@@ -739,6 +752,14 @@ class WorkerPool:
                                                result=RuntimeError("Cannot call 'map' while another 'map' is running"))
                 self._handle_exception()
             self._map_running = True
+
+            # A kept-alive worker died while the pool was idle: this call fails
+            if self._idle_worker_death is not None:
+                idle_worker_death, self._idle_worker_death = self._idle_worker_death, None
+                if self._workers:
+                    self._worker_comms.signal_exception_thrown(MAIN_PROCESS)
+                    self._cache[MAIN_PROCESS]._set(success=False, result=idle_worker_death)
+                    self._handle_exception()
 
             # Start tqdm manager if a progress bar is desired. Will only start one when not already started. This has to
             # be done before starting the workers in case nested pools are used
